@@ -127,7 +127,7 @@ def run_c18(tier, seed):
         return True
 
     ops = ["assign_nested_larger", "set_scalar", "set_renamed", "set_array_elem", "set_string", "assign_nested", "assign_nested_nested_write", "assign_ref_same", "assign_ref_other",
-           "copy", "move", "move_nested", "move_with_ref", "set_none_ref", "move_nested_of_rebuilt", "grow_then_write_arrays"]
+           "copy", "move", "move_nested", "move_with_ref", "set_none_ref", "move_nested_of_rebuilt", "grow_then_write_arrays", "assign_nested_other_split"]
     L = 2 if tier == "quick" else 3
     hists = list(itertools.product(ops, repeat=L))
     rnd.shuffle(hists)
@@ -169,9 +169,29 @@ def run_c18(tier, seed):
                     if c._xobject.b.m[1, 2] != nv or c._xobject.b.a.v[0] != nw:
                         bad("array-attribute:write-after-growth-not-in-buffer", history=done)
                     c._xobject.b.m[0, 1] = nv + 1
-                    c._xobject.b.a.v[1] = nw + 1.0
-                    if c.b.m[0, 1] != nv + 1 or c.b.alpha.v[1] != nw + 1.0:
+                    jl = len(c.b.alpha.v) - 1
+                    c._xobject.b.a.v[jl] = nw + 1.0
+                    if c.b.m[0, 1] != nv + 1 or c.b.alpha.v[jl] != nw + 1.0:
                         bad("array-attribute:buffer-write-after-growth-not-visible", history=done)
+                elif op == "assign_nested_other_split":
+                    # a value of the same total size whose dynamic parts are split differently (shorter array, longer text): the nested
+                    # attribute must follow the new layout -- read and write through it, compare with the buffer
+                    cur = c.b.alpha
+                    sz = cur._xobject._size
+                    cands = [HA(x=7.0, count=5, v=[0.25] * nv, name="q" * nn) for nv in range(0, 6) for nn in range(0, 30, 7)]
+                    cands = [k for k in cands if k._xobject._size == sz and len(k.v) != len(cur.v) and len(k.v) >= 1]
+                    if cands:
+                        newv = cands[0]
+                        want = attr_value(X, newv)
+                        c.b.alpha = newv
+                        if not eq(_num(attr_value(X, c.b.alpha)), _num(want)):
+                            bad("nested-assign:other-split:value", history=done, got=repr(attr_value(X, c.b.alpha))[:160], want=repr(want)[:160])
+                        if len(c.b.alpha.v):
+                            c.b.alpha.v[len(c.b.alpha.v) - 1] = 123.5
+                            if c._xobject.b.a.v[len(c.b.alpha.v) - 1] != 123.5:
+                                bad("nested-assign:other-split:write-not-in-buffer", history=done)
+                        if c.b.alpha.name != "q" * len(newv.name) or c._xobject.b.a.name != c.b.alpha.name:
+                            bad("nested-assign:other-split:text", history=done, got=c.b.alpha.name)
                 elif op == "set_string":
                     c.b.alpha.name = rnd.choice(["", "z", "yy"])[: len(c.b.alpha.name)]
                 elif op in ("assign_nested", "assign_nested_nested_write"):
@@ -330,6 +350,23 @@ def run_c19(tier, seed):
                 bad("dict:value:rebuilt-in-used-memory", cls="HP", original=repr(attr_value(X, h))[:200], rebuilt=repr(attr_value(X, h2))[:200], dictionary=repr(dct)[:200])
         except Exception as e:  # noqa
             bad(f"dict:raised:rebuilt-in-used-memory:{type(e).__name__}", problem=str(e)[:200])
+    # ---- a nested hybrid field for which the enclosing class declares its own default (or default factory), other than the nested
+    # class's defaults: nested values equal to the nested class's defaults must survive the round trip
+    In_ = type(grammar.uniq("JI"), (X.HybridClass,), {"_xofields": {"a": X.Int64, "b": X.Field(X.Float64, default=1.5), "c": X.Field(X.Int32, default_factory=lambda: 7)}})
+    OutD = type(grammar.uniq("JO"), (X.HybridClass,), {"_xofields": {"n": X.Field(X.Int32, default=4), "inner": X.Field(In_._XoStruct, default={"a": 3, "b": 2.5, "c": 9})}})
+    OutF = type(grammar.uniq("JF"), (X.HybridClass,), {"_xofields": {"n": X.Int32, "inner": X.Field(In_._XoStruct, default_factory=lambda: {"a": -1, "c": 0})}})
+    for OC in (OutD, OutF):
+        for av, bv, cv in ((0, 1.5, 7), (3, 2.5, 9), (-1, 1.5, 0), (0, 0.0, 7), (11, 1.5, 7)):
+            evals += 1
+            distinct.add((OC.__name__, av, bv, cv))
+            try:
+                h = OC(n=4, inner=In_(a=av, b=bv, c=cv))
+                dct = h.to_dict()
+                h2 = OC.from_dict({k: v for k, v in dct.items() if k != "__class__"})
+                if not hyb_eq(X, h, h2):
+                    bad("dict:value:nested-field-with-enclosing-default", cls=OC.__name__, original=repr(attr_value(X, h))[:200], rebuilt=repr(attr_value(X, h2))[:200], dictionary=repr(dct)[:200])
+            except Exception as e:  # noqa
+                bad(f"dict:raised:nested-field-with-enclosing-default:{type(e).__name__}", problem=str(e)[:200])
     # ---- hybrid dictionaries
     for rep in range(20 if tier == "quick" else 200):
         a = mk_a(HA, rnd)
